@@ -21,6 +21,46 @@ func (q quote) lib() *bt.FeeQuote {
 	return fq
 }
 
+// libForm builds the same quote through other call sequences: 1 each Fee carries the label of the
+// other type (the slot it is added under is what counts), 2 unlabelled Fee values, 3 through
+// FeeQuotes.UpdateMinerFees, 4 first filled with other rates and then updated, 5 one Fee object
+// re-labelled between the two AddQuote calls
+func (q quote) libForm(form int) *bt.FeeQuote {
+	std := &bt.Fee{FeeType: bt.FeeTypeStandard, MiningFee: bt.FeeUnit{Satoshis: q.SS, Bytes: q.SB}, RelayFee: bt.FeeUnit{Satoshis: q.SS, Bytes: q.SB}}
+	data := &bt.Fee{FeeType: bt.FeeTypeData, MiningFee: bt.FeeUnit{Satoshis: q.DS, Bytes: q.DB}, RelayFee: bt.FeeUnit{Satoshis: q.DS, Bytes: q.DB}}
+	switch form {
+	case 1:
+		std.FeeType, data.FeeType = bt.FeeTypeData, bt.FeeTypeStandard
+	case 2:
+		std.FeeType, data.FeeType = "", ""
+	case 3:
+		fqs := bt.NewFeeQuotes("m")
+		_, _ = fqs.UpdateMinerFees("m", bt.FeeTypeStandard, std)
+		_, _ = fqs.UpdateMinerFees("m", bt.FeeTypeData, data)
+		fq, _ := fqs.Quote("m")
+		return fq
+	case 4:
+		fq := bt.NewFeeQuote()
+		fq.AddQuote(bt.FeeTypeStandard, &bt.Fee{FeeType: bt.FeeTypeStandard, MiningFee: bt.FeeUnit{Satoshis: 977, Bytes: 3}, RelayFee: bt.FeeUnit{Satoshis: 977, Bytes: 3}})
+		fq.AddQuote(bt.FeeTypeData, &bt.Fee{FeeType: bt.FeeTypeData, MiningFee: bt.FeeUnit{Satoshis: 13, Bytes: 7}, RelayFee: bt.FeeUnit{Satoshis: 13, Bytes: 7}})
+		fq.AddQuote(bt.FeeTypeData, data)
+		fq.AddQuote(bt.FeeTypeStandard, std)
+		return fq
+	case 5:
+		fq := bt.NewFeeQuote()
+		got, _ := q.lib().Fee(bt.FeeTypeStandard) // a Fee obtained from another quote, still labelled standard
+		cp := *got
+		cp.MiningFee, cp.RelayFee = data.MiningFee, data.RelayFee
+		fq.AddQuote(bt.FeeTypeStandard, got)
+		fq.AddQuote(bt.FeeTypeData, &cp)
+		return fq
+	}
+	fq := bt.NewFeeQuote()
+	fq.AddQuote(bt.FeeTypeStandard, std)
+	fq.AddQuote(bt.FeeTypeData, data)
+	return fq
+}
+
 func floorMulDiv(n uint64, s, b int) *big.Int {
 	x := new(big.Int).Mul(new(big.Int).SetUint64(n), big.NewInt(int64(s)))
 	return x.Div(x, big.NewInt(int64(b)))
